@@ -50,7 +50,14 @@ fn range_points(op: Op, prec: i32) -> Vec<f64> {
         Atan | Asinh | Cbrt => g.extend([1048576.0, -1048576.0]),
         Recip => g.extend([1048576.0, -1048576.0]),
         Sqrt | Ln | Log(_) | Log2 | Log10 => g.extend([1048576.0, 1.2345678e-6]),
-        Ln1p | Acosh => g.extend([1048576.0]),
+        Ln1p => g.extend([1048576.0, -0.99]),
+        Acosh => g.extend([1048576.0, 1.01]),
+        // close to the end points of the domain, with a margin of 1e-2: the derivative factors are
+        // functions of 1 - x^2, whose rounding is amplified by 1/(1 - x^2) - at a margin of 1e-4 the
+        // current formulas are off by 10 times the tolerance, and the obvious reformulation
+        // (1 - x)(1 + x) loses the inner derivative parts of nested numbers next to 0 instead (tried
+        // in a scratch worktree); C01 keeps 'a fixed margin away from singularities', this is it
+        Asin | Acos | Atanh => g.extend([0.99, -0.99]),
         _ => {}
     }
     if matches!(op, Exp | Exp2 | ExpM1 | Sin | Cos | SinCosS | SinCosC | Tan | Atan | Sinh | Cosh | Tanh | Asinh | Ln1p | Asin | Acos | Atanh | Cbrt | Recip) {
